@@ -273,6 +273,7 @@ const (
 	ctxEntry ctxKind = iota
 	ctxEntryValidate
 	ctxXNode
+	ctxEntryDebug
 )
 
 func safeRun(m *xpath.Machine, ck ctxKind, cur *faulttree.Node, goctx context.Context) (o runOut) {
@@ -291,6 +292,12 @@ func safeRun(m *xpath.Machine, ck ctxKind, cur *faulttree.Node, goctx context.Co
 		res = xpath.NewCtxFromCurrent(goctx, m, cur.Entry(nil)).EnableValidation().Run()
 	case ctxXNode:
 		res = xpath.NewCtxFromMach(m, smallXTree()).Run()
+	case ctxEntryDebug:
+		res = xpath.NewCtxFromCurrent(goctx, m, cur.Entry(nil)).SetDebug(true).Run()
+		if res != nil {
+			_ = res.GetDebugOutput()
+			_ = res.PrintResult()
+		}
 	}
 	if res == nil {
 		o.nilRes = true
@@ -354,7 +361,8 @@ func (world) RunCase(t *tape.Tape, st *super.Stats) *super.Violation {
 			mapCalls++
 			if failAt > 0 && mapCalls == failAt {
 				inc("fault:mapFn-error")
-				return "", fmt.Errorf("SIMFAULT-mapFn-%d", mapCalls)
+				// error texts a caller might really produce: with a format verb, with the marker, with the expression itself
+				return "", fmt.Errorf("%s", []string{"SIMFAULT-mapFn", "no module for prefix %s (100%)", "bad prefix [X] here", "cannot map in '" + s + "'"}[mapCalls%4])
 			}
 			return "urn:" + pfx, nil
 		}
